@@ -115,6 +115,21 @@ func guarded(f func()) (problem string) {
 	}
 }
 
+// protected runs f inline: a panic of the real code is returned as text.  Used for the queries that
+// cannot reach a log.Fatal (no goroutine per call: millions of them are made in a replay).
+func protected(f func()) (problem string) {
+	defer func() {
+		if r := recover(); r != nil {
+			problem = fmt.Sprintf("panic: %v", r)
+		}
+	}()
+	f()
+	return ""
+}
+
+// the queries whose code path contains a log.Fatal (unknown rank label, unknown taxid)
+var c14MayFatal = map[string]bool{"seq_restrict": true, "seq_hasrank": true, "seq_atrank": true, "seq_path": true}
+
 func lastFatal() []string {
 	m := fatalMessages()
 	if len(m) > 2 {
@@ -191,9 +206,9 @@ func writeDump(dir string, d *taxDef, rng *rand.Rand) error {
 	return nil
 }
 
-func loadDump(dir string) (tx *obitax.Taxonomy, loaded int, problem string) {
+func loadDump(dir string, onlysn bool) (tx *obitax.Taxonomy, loaded int, problem string) {
 	problem = guarded(func() {
-		t, err := ncbitaxdump.LoadNCBITaxDump(dir, true)
+		t, err := ncbitaxdump.LoadNCBITaxDump(dir, onlysn)
 		if err != nil {
 			panic(err)
 		}
@@ -248,8 +263,15 @@ func seqWithTaxid(id int) *obiseq.BioSequence {
 // bagWeight: deterministic positive weight of the k-th member of a bag (the specification does not depend on it)
 func bagWeight(id, k int) int { return 1 + (id*7+k*3)%5 }
 
+// bagAsTaxid: a bag of one even taxid is written as a plain "taxid" annotation (no merged_taxid slot)
+func bagAsTaxid(bag []int) bool { return len(bag) == 1 && bag[0]%2 == 0 }
+
 func seqWithBag(name string, bag []int) *obiseq.BioSequence {
 	s := obiseq.NewBioSequence(name, []byte("acgt"), "")
+	if bagAsTaxid(bag) {
+		s.SetAttribute("taxid", bag[0])
+		return s
+	}
 	m := make(map[string]int, len(bag))
 	for k, id := range bag {
 		m[strconv.Itoa(id)] = bagWeight(id, k)
@@ -314,7 +336,11 @@ func parsePathString(p string) ([]int, bool) {
 // ask runs q on the real taxonomy and fills q.Res / q.S / q.Err.
 func ask(tx *obitax.Taxonomy, q *query) {
 	q.Res, q.S = []int{}, []string{}
-	q.Err = guarded(func() {
+	run := protected
+	if c14MayFatal[q.Op] {
+		run = guarded
+	}
+	q.Err = run(func() {
 		switch q.Op {
 		case "resolve": // Taxonomy.Taxon(int)
 			n, err := tx.Taxon(q.A[0])
@@ -534,11 +560,34 @@ func runBinary(bin string, args []string, dir string) (stdout []byte, rc int, st
 			rc = -1
 		}
 	}
-	msg := se.String()
-	if len(msg) > 600 {
-		msg = msg[len(msg)-600:]
+	// keep what matters of stderr: drop the info lines, keep the head (panic message) and the tail
+	keep := []string{}
+	for _, l := range strings.Split(se.String(), "\n") {
+		if !strings.Contains(l, "level=info") && strings.TrimSpace(l) != "" {
+			keep = append(keep, l)
+		}
+	}
+	msg := strings.Join(keep, "\n")
+	if len(msg) > 2400 {
+		msg = msg[:1600] + "\n[...]\n" + msg[len(msg)-700:]
 	}
 	return so.Bytes(), rc, msg
+}
+
+// transient failures of the binaries (exit != 0 once, fine when repeated)
+var c14Transient struct {
+	mu   sync.Mutex
+	n    int
+	msgs []string
+}
+
+func noteTransient(msg string) {
+	c14Transient.mu.Lock()
+	c14Transient.n++
+	if len(c14Transient.msgs) < 2 {
+		c14Transient.msgs = append(c14Transient.msgs, msg)
+	}
+	c14Transient.mu.Unlock()
 }
 
 func idFromRecName(name string) int {
@@ -561,6 +610,10 @@ func askCmd(bindir, dumpdir string, q *query, tag string) {
 		}
 	case "cmd_lca":
 		for i, bag := range q.Sets {
+			if bagAsTaxid(bag) {
+				fmt.Fprintf(&fb, ">b%d {\"taxid\":%d}\nacgtacgt\n", i, bag[0])
+				continue
+			}
 			parts := []string{}
 			for k, id := range bag {
 				parts = append(parts, fmt.Sprintf("\"%d\":%d", id, bagWeight(id, k)))
@@ -596,6 +649,13 @@ func askCmd(bindir, dumpdir string, q *query, tag string) {
 	}
 	args = append(args, "--max-cpu", "2", in)
 	out, rc, stderr := runBinary(filepath.Join(bindir, bin), args, dumpdir)
+	// A crash that does not repeat on the same input is not a statement about the taxonomy (it belongs to the
+	// concurrency properties of the readers/writers): it is counted and shown in the evidence, and the run is
+	// repeated; a failure that repeats three times is reported.
+	for attempt := 1; rc != 0 && attempt < 3; attempt++ {
+		noteTransient(fmt.Sprintf("%s %v: exit %d (attempt %d): %s", bin, args, rc, attempt, stderr))
+		out, rc, stderr = runBinary(filepath.Join(bindir, bin), args, dumpdir)
+	}
 	if rc != 0 {
 		q.Err = fmt.Sprintf("%s %v: exit %d: %s", bin, args, rc, stderr)
 		q.Res = []int{-1}
@@ -686,6 +746,8 @@ type taxCase struct {
 	Grep    []grepCombo `json:"grep"`
 	Bags    []bagCase   `json:"bags"`
 	Cmd     bool        `json:"cmd,omitempty"` // also run the binaries on this case
+
+	local map[string]int // comparisons made on this case, by class
 }
 
 func (c *taxCase) nameOf(x int) string {
@@ -761,6 +823,9 @@ func (r *c14replayer) count(class string, n int) {
 
 // check compares one answer of the real code with the value the specification exported.
 func (r *c14replayer) check(c *taxCase, src string, q *query, wantRes []int, wantS []string, asSet bool) {
+	if c.local == nil {
+		c.local = map[string]int{}
+	}
 	q.Src = src
 	ok := q.Err == ""
 	if ok {
@@ -773,12 +838,12 @@ func (r *c14replayer) check(c *taxCase, src string, q *query, wantRes []int, wan
 	if ok && wantS != nil {
 		ok = eqStrs(q.S, wantS)
 	}
-	r.count(src+"."+q.Op, 1)
+	c.local[src+"."+q.Op]++
 	if ok {
 		return
 	}
 	assert := "C14." + q.Op
-	cls := src + "/" + c.shape()
+	cls := src
 	r.mu.Lock()
 	r.nfail[assert+cls]++
 	n := r.nfail[assert+cls]
@@ -786,29 +851,38 @@ func (r *c14replayer) check(c *taxCase, src string, q *query, wantRes []int, wan
 	if n > 3 { // keep the result file small: three witnesses per (assertion, class)
 		return
 	}
-	detail := fmt.Sprintf("%s(a=%v b=%v k=%v in=%v sets=%v) on parent=%v rank=%v alias=%v [%s]: real code answered %v %v %s, Tax.tla says %v %v",
+	detail := fmt.Sprintf("%s(a=%v b=%v k=%v in=%v sets=%v) on "+c.shape()+" parent=%v rank=%v alias=%v [%s]: real code answered %v %v %s, Tax.tla says %v %v",
 		q.Op, q.A, q.B, q.K, q.In, q.Sets, c.Parent, c.Rank, c.Alias, src, q.Res, q.S, q.Err, wantRes, wantS)
 	cc := *c
+	cc.local = nil
 	cc.Cmd = src == "cmd"
 	r.env.fail(assert, cls, detail, cc)
 }
 
 func (r *c14replayer) libQueries(c *taxCase, src string, tx *obitax.Taxonomy) {
 	n := c.n()
+	root := c.rootTaxid()
 	nid := len(c.Res) // ids 0..nid-1
 	known := []int{}  // ids the specification resolves to a taxon
 	allIds := []int{}
+	broken := map[int]bool{}
 	for id := 0; id < nid; id++ {
 		allIds = append(allIds, id)
-		if c.Res[id] != 0 {
-			known = append(known, id)
-		}
 	}
 	for id := 0; id < nid; id++ {
 		q := newQuery(src, "resolve")
 		q.A = []int{id}
 		ask(tx, q)
 		r.check(c, src, q, []int{c.Res[id]}, nil, false)
+		switch {
+		case c.Res[id] == 0:
+			c.local["scn.resolve_unknown_id"]++
+		case id > n:
+			c.local["scn.resolve_merged_id"]++
+		}
+		if c.Res[id] != 0 && (q.Err != "" || !eqInts(q.Res, []int{c.Res[id]})) {
+			broken[id] = true // reported above; the other queries are asked about ids the real code does resolve
+		}
 		q = newQuery(src, "resolve_str")
 		q.A = []int{id}
 		ask(tx, q)
@@ -821,6 +895,14 @@ func (r *c14replayer) libQueries(c *taxCase, src string, tx *obitax.Taxonomy) {
 			want = c.Path[c.Res[id]-1]
 		}
 		r.check(c, src, q, want, nil, false)
+	}
+	for id := 0; id < nid; id++ {
+		if c.Res[id] != 0 && !broken[id] {
+			known = append(known, id)
+		}
+	}
+	if len(broken) > 0 { // sequence-level queries quantify over all ids: not asked on a taxonomy whose aliases are broken
+		return
 	}
 	for _, x := range known {
 		rx := c.Res[x]
@@ -842,6 +924,23 @@ func (r *c14replayer) libQueries(c *taxCase, src string, tx *obitax.Taxonomy) {
 			q.A = []int{x, y}
 			ask(tx, q)
 			r.check(c, src, q, []int{c.Lca[rx-1][ry-1]}, nil, false)
+			// scenario classes (coverage only, read off the exported tables)
+			switch {
+			case x == y:
+				c.local["scn.lca_same_taxon"]++
+			case c.Sub[rx-1][ry-1] == 1 || c.Sub[ry-1][rx-1] == 1:
+				c.local["scn.lca_ancestor_and_descendant"]++
+			case len(c.Path[rx-1]) != len(c.Path[ry-1]):
+				c.local["scn.lca_unequal_depths"]++
+			default:
+				c.local["scn.lca_equal_depths"]++
+			}
+			if x > n || y > n {
+				c.local["scn.lca_through_alias"]++
+			}
+			if rx == root || ry == root {
+				c.local["scn.lca_with_root"]++
+			}
 			q = newQuery(src, "sub")
 			q.A = []int{x, y}
 			ask(tx, q)
@@ -853,6 +952,16 @@ func (r *c14replayer) libQueries(c *taxCase, src string, tx *obitax.Taxonomy) {
 			ask(tx, q)
 			want := c.AtRank[qi][rx-1]
 			r.check(c, src, q, []int{want}, []string{c.nameOf(want)}, false)
+			switch {
+			case want == 0:
+				c.local["scn.atrank_none"]++
+			case want == rx:
+				c.local["scn.atrank_self"]++
+			case want == root:
+				c.local["scn.atrank_is_root"]++
+			default:
+				c.local["scn.atrank_inner_ancestor"]++
+			}
 			q = newQuery(src, "hasrank")
 			q.A, q.K = []int{x}, []string{rank}
 			ask(tx, q)
@@ -937,9 +1046,6 @@ func (r *c14replayer) cmdQueries(c *taxCase, dumpdir string) {
 		r.check(c, "cmd", q, g.Sel, nil, true)
 	}
 	for qi, rank := range c.QRanks {
-		if !hasStr(c.Rank, rank) {
-			continue
-		}
 		q := newQuery("cmd", "cmd_atrank")
 		q.K, q.In = []string{rank}, allIds
 		askCmd(r.bindir, dumpdir, q, "r"+strconv.Itoa(qi))
@@ -1004,7 +1110,7 @@ func replayC14(env *Env) {
 			fmt.Fprintln(os.Stderr, "cannot write dump:", err)
 			os.Exit(2)
 		}
-		tx2, loaded2, prob2 := loadDump(dir)
+		tx2, loaded2, prob2 := loadDump(dir, i%2 == 0)
 		if prob2 != "" || loaded2 != c.n() {
 			env.fail("C14.load", "dump/"+cls, fmt.Sprintf("loading parent=%v through LoadNCBITaxDump: %s (%d taxa)", c.Parent, prob2, loaded2), *c)
 		} else {
@@ -1016,6 +1122,11 @@ func replayC14(env *Env) {
 			r.count("cases.cmd", 1)
 		}
 		os.RemoveAll(dir)
+		r.mu.Lock()
+		for k, v := range c.local {
+			r.counts[k] += v
+		}
+		r.mu.Unlock()
 		env.ok("shape." + cls)
 		if c.rootTaxid() != 1 {
 			r.count("cases.root_not_1", 1)
@@ -1028,7 +1139,11 @@ func replayC14(env *Env) {
 	for k, v := range r.counts {
 		env.classes[k] += v
 	}
+	env.classes["cmd.transient_crash_repeated_ok"] += c14Transient.n
 	env.mu.Unlock()
+	for _, m := range c14Transient.msgs {
+		env.emit(map[string]any{"sample": map[string]any{"transient_binary_failure": m}})
+	}
 }
 
 // -------------------------------------------------------------------------------------- record
@@ -1239,7 +1354,7 @@ func randomCmdQuery(rng *rand.Rand, d *taxDef) *query {
 		return q
 	case 2:
 		q := newQuery("cmd", "cmd_atrank")
-		q.K = []string{pickRank(rng, d, true)}
+		q.K = []string{pickRank(rng, d, false)}
 		q.In = someIds(25, true)
 		return q
 	default:
@@ -1262,7 +1377,7 @@ func (r *c14recorder) runScenario(d *taxDef, shape string, qs []*query, seed int
 		os.Exit(2)
 	}
 	defer os.RemoveAll(dir)
-	dump, n2, p2 := loadDump(dir)
+	dump, n2, p2 := loadDump(dir, idx%2 == 0)
 	ev.Loaded = []int{n1, n2}
 	ev.Err = p1 + p2
 	emit(ev)
